@@ -4,9 +4,16 @@ hidc folds constant expressions on unbounded Python integers.  A constant
 int literal or folded arithmetic intermediate whose exact value lies outside
 the signed word range therefore behaves differently from the same expression
 evaluated at run time (where it wraps) as soon as it feeds a non-ring
-operation.  f4_pattern() says whether a program contains such a constant; the
-program-level checks exclude those programs by construction (and count them),
-C14 examines them on purpose.
+operation *that is itself evaluated at compile time*: a division, modulo or
+comparison whose operands are all constant, the truth value of a constant
+(and / or / not / is bool, a constant condition, a constant argument of
+!truth_is_defeat), or a constant dynamic-array length.  An out-of-range
+constant that only meets run-time operands (x / 65536, x < 70000, a[65536],
+int g = 65536 + 1) ends up as an immediate or a data word, wraps there and is
+*not* part of the finding (the compiled code agrees with run-time semantics;
+checked on the pinned tree).  f4_pattern() says whether a program contains
+such a compile-time consumption; the program-level checks exclude those
+programs by construction (and count them), C14 examines them on purpose.
 """
 from hast import *  # noqa
 
@@ -21,6 +28,11 @@ def _exact(e, env, ws, hits):
     hi = (1 << (8 * ws - 1)) - 1
 
     def note(v):
+        # producing an out-of-range value is harmless by itself (ring operations commute with wrapping)
+        return v
+
+    def consume(v):
+        # a compile-time non-ring operation looks at v: the finding applies if v is out of range
         if isinstance(v, int) and not isinstance(v, bool) and not (lo <= v <= hi):
             hits.append(v)
         return v
@@ -40,14 +52,14 @@ def _exact(e, env, ws, hits):
     if isinstance(e, Un):
         v = _exact(e.e, env, ws, hits)
         if e.op == 'not':
-            return not _truthy(v)
+            return not _truthy(consume(v))
         if isinstance(v, bytes):
             raise _NotConst()
         return note(-int(v) if e.op == '-' else int(v))
     if isinstance(e, Is):
         v = _exact(e.e, env, ws, hits)
         if e.ty == BOOL:
-            return _truthy(v)
+            return _truthy(consume(v))
         if isinstance(v, bytes) or is_arr(e.ty):
             raise _NotConst()
         if e.ty == BYTE:
@@ -57,8 +69,8 @@ def _exact(e, env, ws, hits):
         raise _NotConst()
     if isinstance(e, Bin):
         if e.op in ('and', 'or'):
-            l = _exact(e.l, env, ws, hits)
-            r = _exact(e.r, env, ws, hits)
+            l = consume(_exact(e.l, env, ws, hits))
+            r = consume(_exact(e.r, env, ws, hits))
             return (_truthy(l) and _truthy(r)) if e.op == 'and' else (_truthy(l) or _truthy(r))
         l = _exact(e.l, env, ws, hits)
         r = _exact(e.r, env, ws, hits)
@@ -72,6 +84,8 @@ def _exact(e, env, ws, hits):
             return note(l - r)
         if e.op == '*':
             return note(l * r)
+        consume(l)
+        consume(r)
         if e.op in ('/', '%'):
             if r == 0:
                 hits.append('div0')
@@ -87,15 +101,22 @@ def _truthy(v):
     return v != 0
 
 
-def _scan_expr(e, env, ws, hits):
-    """Try to fold e as a whole; otherwise descend into sub-expressions."""
+def _scan_expr(e, env, ws, hits, truth=False):
+    """Try to fold e as a whole; otherwise descend into sub-expressions.  truth: the value is consumed by a
+    compile-time non-ring use (condition, !truth_is_defeat argument, dynamic array length)."""
     if e is None:
         return
     try:
-        _exact(e, env, ws, hits)
+        v = _exact(e, env, ws, hits)
+        if truth and isinstance(v, int) and not isinstance(v, bool) and not (-(1 << (8 * ws - 1)) <= v < (1 << (8 * ws - 1))):
+            hits.append(v)
         return
     except _NotConst:
         pass
+    if isinstance(e, Call) and e.name == '!truth_is_defeat':
+        for x in e.args:
+            _scan_expr(x, env, ws, hits, truth=True)
+        return
     for f in e.fields:
         v = getattr(e, f)
         if isinstance(v, Node):
@@ -125,14 +146,14 @@ def _scan_stmt(s, env, ws, hits):
         env[s.name] = val
         return
     if isinstance(s, ArrDecl):
-        _scan_expr(s.length, env, ws, hits)
+        _scan_expr(s.length, env, ws, hits, truth=True)
         env[s.name] = None
         return
     if isinstance(s, For):
         inner = dict(env)
         if s.init is not None:
             _scan_stmt(s.init, inner, ws, hits)
-        _scan_expr(s.cond, inner, ws, hits)
+        _scan_expr(s.cond, inner, ws, hits, truth=True)
         if s.step is not None:
             _scan_stmt(s.step, inner, ws, hits)
         _scan_stmt(s.body, inner, ws, hits)
@@ -143,7 +164,7 @@ def _scan_stmt(s, env, ws, hits):
             if isinstance(v, (Block, If, While, For, Try, Preempt, Decl, ArrDecl, Assign, AugAssign, ExprStmt, Return)):
                 _scan_stmt(v, env, ws, hits)
             else:
-                _scan_expr(v, env, ws, hits)
+                _scan_expr(v, env, ws, hits, truth=(f == 'cond' and isinstance(s, (If, While))))
         elif isinstance(v, list):
             for x in v:
                 if isinstance(x, Node):
